@@ -42,6 +42,7 @@ pub struct Exchange {
     pub calls: Vec<Range<u64>>,
     pub calls_at_serve: usize,
     pub fired: Option<Fired>,
+    pub planned: Option<Fired>,
     pub breach: Option<String>,
     pub clock_reads: u64,
     pub policy: Policy,
@@ -135,6 +136,7 @@ pub fn exchange(ctx: &mut Ctx, meta: &Arc<Meta>, now_ns: u128, plan: &ReqPlan, c
         calls: Vec::new(),
         calls_at_serve: 0,
         fired: None,
+        planned: None,
         breach: None,
         clock_reads: CLOCK_READS.with(|c| c.get()),
         policy: cfg.policy,
@@ -160,6 +162,7 @@ pub fn exchange(ctx: &mut Ctx, meta: &Arc<Meta>, now_ns: u128, plan: &ReqPlan, c
     let st = world.st.lock().unwrap();
     ex.calls = st.calls.clone();
     ex.fired = st.fired.clone();
+    ex.planned = st.planned.clone();
     ex.breach = st.contract_breach.clone();
     let s = &mut *ctx.stats;
     s.add("polls", ex.log.steps.len() as u64);
@@ -481,7 +484,15 @@ pub fn run(ctx: &mut Ctx) -> Result<RunOut, Violation> {
         "C20" => return check_c20(ctx, &ex, sig),
         _ => {}
     }
-    if panic.is_some() {
+    if let Some(p) = &panic {
+        // serve() itself panicking is C13's clause. A body that panics while a normal consumer
+        // drains it neither ends cleanly nor delivers what its headers announce: that is a
+        // violation of the body properties too (over-polling panics stay with C20).
+        let while_draining = ex.serve_panic.is_none() && ex.log.terminal.map(|t| matches!(ex.log.steps[t].1, Step::Panic(_))).unwrap_or(false);
+        if while_draining && matches!(focus, "C01" | "C02" | "C06" | "C07") {
+            let fs: &'static str = match focus { "C01" => "C01", "C02" => "C02", "C06" => "C06", _ => "C07" };
+            return violation(fs, "panic-while-draining", format!("{p}; status {} after {} bytes; request {}; entity len {}", ex.status, ex.log.total, plan.describe(), meta.len));
+        }
         ctx.stats.bump("runs_cut_short_by_a_panic_(reported_by_C13/C20)");
         return Ok(RunOut { sig, nontrivial: false });
     }
@@ -760,7 +771,13 @@ fn check_c06(ctx: &mut Ctx, ex: &Exchange, meta: &Meta, plan: &ReqPlan, sig: u64
 // ---------------------------------------------------------------- C07
 
 fn check_c07(ctx: &mut Ctx, ex: &Exchange, sig: u64) -> Result<RunOut, Violation> {
-    let Some(f) = &ex.fired else {
+    // A surplus chunk planned right after the last byte only "fires" if the body asks the entity's
+    // stream again; a consumer that polls past the announced length must get an error either way.
+    let planned_surplus = match (&ex.fired, &ex.planned) {
+        (None, Some(p)) if p.kind == FaultKind::ExtraChunk => Some(p.clone()),
+        _ => None,
+    };
+    let Some(f) = ex.fired.as_ref().or(planned_surplus.as_ref()) else {
         return Ok(RunOut { sig, nontrivial: false });
     };
     if !matches!(ex.status, 200 | 206) {
@@ -814,7 +831,7 @@ fn check_c07(ctx: &mut Ctx, ex: &Exchange, sig: u64) -> Result<RunOut, Violation
         }
     } else if f.kind.is_long() {
         // Polling past the announced length yields an error, not data.
-        if ex.policy == Policy::Drain {
+        if ex.policy == Policy::Drain || ex.is_multipart() {
             match ex.log.terminal.map(|i| &ex.log.steps[i].1) {
                 Some(Step::Err(_)) => {}
                 other => {
@@ -859,6 +876,16 @@ pub fn check_hints(prop: &'static str, log: &DrainLog, clean_end: bool, must_be_
         }
         if must_be_exact && s.upper != Some(s.lower) {
             return violation(prop, "hint-not-exact", format!("before poll #{} the size hint is {}..{:?}", i + 1, s.lower, s.upper));
+        }
+    }
+    // After the first terminal event the body delivers nothing more; if it is then seen to end
+    // (None), any sample taken in between that still promises bytes was untruthful.
+    if let Some(t) = log.terminal {
+        for i in t + 1..log.steps.len() {
+            let ends_later = log.steps[i..].iter().any(|s| s.1 == Step::End);
+            if ends_later && log.steps[i].0.lower > 0 {
+                return violation(prop, "lower-bound-after-termination", format!("before poll #{} (after the terminal event at poll #{}) the lower bound is still {} but the body only ended", i + 1, t + 1, log.steps[i].0.lower));
+            }
         }
     }
     if clean_end {
